@@ -17,14 +17,16 @@ T = {
          "term objects are read-only references; the constructors' dict comprehension is an assumed contract; np.column_stack layout assumed; prefix-sum lemma checked in Lean; key order of the slices dict not modelled", PV),
 }
 FRAG = {
+ "C08": "Proved fragments: design_matrices selects columns by name from var_names & columns and filters rows with one positional boolean mask; the levels computed by eval_categoric for data that is not an ordered categorical are the sorted distinct values (independent of row order).",
+ "C09": "Proved fragments: design_matrices validation and NA branch logic: an accepted call had a non-empty formula, a non-empty frame and a documented policy; 'error' never returns when a used variable has an incomplete row; 'drop' hands on exactly the positional filter of the used columns; 'pass' hands on all rows.",
  "C02": "Proved fragments: Term.__init__ keeps every given factor exactly once and invents none (term identity = the duplicate-free factor list), Term.__eq__ compares exactly that list.",
- "C04": "Proved fragments: Treatment closed forms and labels (all n, any reference); get_interaction_matrix result[r, a*ny+b] = x[r,a]*y[r,b] for all shapes; group block layout in GroupSpecificTerm.eval_new_data.",
+ "C04": "Proved fragments: Variable.eval_categoric / Call.eval_categoric: for every frame, column j of a treatment-coded categorical is 1 exactly on the rows whose value equals level j (first level dropped when reduced), levels duplicate-free, covering every row value and sorted for data that is not an ordered categorical; Variable/Call.labels: as many labels as columns, label j = name[level j]; Treatment closed forms and labels (all n, any reference); get_interaction_matrix result[r, a*ny+b] = x[r,a]*y[r,b] for all shapes; group block layout in GroupSpecificTerm.eval_new_data.",
  "C05": "Proved fragments: block structure Z[r, g*p+l] = J[r,g]*X[r,l] (group slowest) and the trailing new-group block of GroupSpecificTerm.eval_new_data; get_interaction_matrix.",
  "C06": "Proved fragments (write-once fitted state, row locality): Center/Scale.__call__ freeze mean/std after the first call and apply the same affine map; BSpline.__call__ never re-initialises; LazyCall.eval creates the transform instance once; Polynomial.__init__ allocates fresh memo dicts; eval_new_data_categoric indexes the remembered contrast rows.",
  "C07": "Proved fragments (per-call frames): fresh-write obligations (in-place numpy writes only on arrays allocated in the activation) in eval_new_data_categoric, GroupSpecificTerm.eval_new_data, BSpline.eval, Sum._sum_contrast; frame obligations (unlisted fields unchanged) on every function under contract; write-once state as in C06; Config stores.",
  "C12": "Proved fragments: operator tables of CallResolver / LazyOperator (table obligations); LazyValue.eval; parser precedence facts come from C01.",
  "C14": "Proved fragments: Center/Scale affine map with frozen parameters; BSpline.eval column count = len(knots) - order - [no intercept]; BSpline.__call__ write-once; Polynomial.__init__ fresh state.",
- "C15": "Proved fragments: Proportion.__init__ validation (raises iff a non-integer or successes > trials exists) and Proportion.eval two columns.",
+ "C15": "Proved fragments: Variable.eval_categoric: a response written y[level] is a single column that is 1 exactly where y equals the level, a categorical response coded full is one indicator column per level; Proportion.__init__ validation (raises iff a non-integer or successes > trials exists) and Proportion.eval two columns.",
  "C16": "Proved fragments: binary (indicator of the given / smallest value, ValueError iff the given value never occurs), Proportion.__init__ / eval, TRANSFORMS alias table (table obligation).",
 }
 DEFAULT_NOTE = "bounded: the stated input family only; numeric comparisons to tolerance; no deductive obligations are counted for this property yet"
